@@ -1,148 +1,7 @@
-//! C18 (threads) and C20 (stack) runtime probes.
-use crate::enc::*;
+//! C20 (stack) runtime probes.
 use crate::gens::*;
 use arimaa_engine_step::*;
 use std::sync::atomic::{AtomicUsize, Ordering};
-use std::sync::Arc;
-
-// rustc is the oracle for the auto traits: this file does not compile unless they hold
-fn assert_send_sync<T: Send + Sync>() {}
-#[allow(dead_code)]
-fn static_claims() {
-    assert_send_sync::<GameState>();
-    assert_send_sync::<PieceBoard>();
-    assert_send_sync::<PieceBoardState>();
-    assert_send_sync::<Action>();
-    assert_send_sync::<Zobrist>();
-    assert_send_sync::<List<Zobrist>>();
-    assert_send_sync::<Phase>();
-    assert_send_sync::<PlayPhase>();
-    assert_send_sync::<PushPullState>();
-    assert_send_sync::<Square>();
-    assert_send_sync::<Piece>();
-    assert_send_sync::<Direction>();
-    assert_send_sync::<Terminal>();
-}
-
-fn fnv(h: &mut u64, v: u64) {
-    *h = (*h ^ v).wrapping_mul(0x100000001b3);
-}
-
-/// digest of everything an expander reads from a shared state
-fn expand_digest(gs: &GameState) -> u64 {
-    let mut h = 0xcbf29ce484222325u64;
-    for v in enc_state(gs) {
-        fnv(&mut h, v);
-    }
-    fnv(&mut h, gs.transposition_hash());
-    fnv(&mut h, enc_terminal(&gs.is_terminal()));
-    let acts = gs.valid_actions();
-    for a in acts.iter() {
-        fnv(&mut h, enc_action(a));
-        fnv(&mut h, enc_preview(gs.trapped_animal_for_action(a)));
-        let n = gs.take_action(a);
-        for v in enc_state(&n) {
-            fnv(&mut h, v);
-        }
-        fnv(&mut h, n.transposition_hash());
-        fnv(&mut h, n.valid_actions().len() as u64);
-    }
-    for a in gs.valid_actions_no_rep() {
-        fnv(&mut h, enc_action(&a));
-    }
-    fnv(&mut h, format!("{}", gs).len() as u64);
-    h
-}
-
-pub fn conc_main(a: &[String]) {
-    // conc <seed> <threads> <roots>
-    let seed: u64 = a[0].parse().unwrap();
-    let threads: usize = a[1].parse().unwrap();
-    let roots: u64 = a[2].parse().unwrap();
-    let mut rng = Rng::new(seed, "conc", 0);
-    // shared states: random positions played forward so that histories (the Arc list) are shared too
-    let mut states: Vec<GameState> = vec![];
-    while (states.len() as u64) < roots {
-        let clustered = rng.chance(1, 2);
-        let cells = random_position(&mut rng, 4, 24, clustered);
-        let text = diagram(&cells, 2, rng.chance(1, 2));
-        if let Ok(Ok(mut gs)) = parse_state_guarded(&text) {
-            for _ in 0..rng.below(30) {
-                if gs.current_step() == 0 && gs.is_terminal().is_some() {
-                    break;
-                }
-                let acts = gs.valid_actions();
-                if acts.is_empty() {
-                    break;
-                }
-                states.push(gs.clone());
-                gs = gs.take_action(&choose(&mut rng, &gs, &acts, 15));
-            }
-            states.push(gs);
-        }
-    }
-    let sequential: Vec<u64> = states.iter().map(expand_digest).collect();
-    let shared = Arc::new(states);
-    let seq = Arc::new(sequential);
-    let mism = Arc::new(AtomicUsize::new(0));
-    let done = Arc::new(AtomicUsize::new(0));
-    let mut handles = vec![];
-    for t in 0..threads {
-        let shared = Arc::clone(&shared);
-        let seq = Arc::clone(&seq);
-        let mism = Arc::clone(&mism);
-        let done = Arc::clone(&done);
-        handles.push(std::thread::spawn(move || {
-            let n = shared.len();
-            // every thread expands every shared state, each in a different order, while holding
-            // clones (shared Arc history nodes) that are dropped concurrently
-            let mut order: Vec<usize> = (0..n).collect();
-            let mut r = Rng(t as u64 * 7919 + 1);
-            for i in (1..n).rev() {
-                let j = r.below(i as u64 + 1) as usize;
-                order.swap(i, j);
-            }
-            let mut first_bad: Option<usize> = None;
-            for &i in order.iter() {
-                let local = shared[i].clone();
-                let d = expand_digest(&shared[i]);
-                let d2 = expand_digest(&local);
-                if d != seq[i] || d2 != seq[i] {
-                    mism.fetch_add(1, Ordering::SeqCst);
-                    if first_bad.is_none() {
-                        first_bad = Some(i);
-                    }
-                }
-                done.fetch_add(1, Ordering::SeqCst);
-                drop(local);
-            }
-            first_bad
-        }));
-    }
-    let mut first_bad: Option<usize> = None;
-    for h in handles {
-        match h.join() {
-            Ok(Some(i)) => first_bad = first_bad.or(Some(i)),
-            Ok(None) => {}
-            Err(_) => {
-                mism.fetch_add(1, Ordering::SeqCst);
-            }
-        }
-    }
-    let sample = format!("{}", shared[0]).replace('\n', "/");
-    println!(
-        "{{\"threads\":{},\"shared_states\":{},\"expansions\":{},\"mismatches\":{},\"first_bad\":{},\"sample\":{:?}}}",
-        threads,
-        shared.len(),
-        done.load(Ordering::SeqCst),
-        mism.load(Ordering::SeqCst),
-        first_bad.map(|i| i as i64).unwrap_or(-1),
-        sample
-    );
-    if let Some(i) = first_bad {
-        println!("BAD {}", format!("{}", shared[i]).replace('\n', "/"));
-    }
-}
 
 /// a legal capture-free game of `turns` turns from the standard array, every action drawn from
 /// valid_actions(): one step of a non-rabbit piece inside its own three ranks, then a pass
